@@ -2,6 +2,7 @@ import Juniper.Driver.Basic
 import Juniper.Model.HelpersSlices
 import Juniper.Model.HelpersSort
 import Juniper.Model.HelpersMisc
+import Juniper.Model.HelpersMore
 /-! Driver for the pure-helper models (C19): `driver helpers`. Stateless: one sub-command per line.
 
 Encodings: a list of ints is `1,2,3` (`-` = empty); a list of lists is `1,2|-|3` (`~` = no list at
@@ -9,6 +10,7 @@ all); index ranges are `lo:hi`; a predicate / class table `t` maps the element `
 an order is `c rev`: `key x = x / c`, `less a b = key a < key b` (reversed when `rev = 1`). -/
 namespace Juniper.Driver.C19
 open Juniper.Driver Juniper.Model.Helpers
+open Juniper.Model.Stdlib (Sl)
 
 def parseList (s : String) : List Int :=
   if s == "-" || s == "" then [] else (s.splitOn ",").map (fun t => intOr t)
@@ -87,6 +89,93 @@ def retArr (r : Option (List Int × List Int)) : String :=
   match r with
   | none => "panic"
   | some (ret, arr) => s!"ret={showList ret} arr={showList arr}"
+
+/-! ### the remaining helpers (`Model/HelpersMore.lean`); -/
+
+/-- a slice of the caller with contents `l` and capacity `cap`; the spare capacity holds `-7` -/
+def mkSl (l : List Int) (cap : Int) : Sl Int :=
+  Sl.withSpare l (List.replicate (cap.toNat - l.length) (-7))
+
+/-- result slice, caller's array afterwards, and whether the result has an array of its own (not
+observable for an empty result) -/
+def showSl (orig r : Sl Int) : String :=
+  s!"ret={showList r.items} arr={showList (Sl.callerAfter orig r)} fresh={if r.items.isEmpty then "-" else b2s r.fresh}"
+
+def showOSl (orig : Sl Int) : Option (Sl Int) → String
+  | none => "panic"
+  | some r => showSl orig r
+
+def showOInt : Option Int → String
+  | none => "panic"
+  | some i => toString i
+
+def predOf (t : List Int) (x : Int) : Bool := tableAt t x == 1
+def eqOf (t : List Int) (a b : Int) : Bool := tableAt t a == tableAt t b
+
+def runMore : List String → String
+  | ["all", l, t] => b2s (all (predOf (parseList t)) (parseList l))
+  | ["any", l, t] => b2s (any (Sl.ofList (parseList l)) (predOf (parseList t)))
+  | ["count", l, x] => toString (count (parseList l) (intOr x))
+  | ["countfunc", l, t] => toString (countFunc (predOf (parseList t)) (parseList l))
+  | ["fill", l, x] => showList (fill (parseList l) (intOr x))
+  | ["clear", l] => showList (clear 0 (parseList l))
+  | ["group", l, t] =>
+    let t := parseList t
+    let g := group (tableAt t) (parseList l)
+    let ks := sortInts (g.map (·.1))
+    if ks.isEmpty then "-" else joinWith "|" (ks.map fun k => s!"{k}={showList ((mget g k).getD [])}")
+  | ["join", ll] =>
+    match join 0 (parseLL ll) with
+    | none => "panic"
+    | some (out, cap) => s!"out={showList out} cap={match cap with | some c => toString c | none => "?"}"
+  | ["lastindex", l, x] => showOInt (lastIndex (parseList l) (intOr x))
+  | ["lastindexfunc", l, t] => showOInt (lastIndexFunc (parseList l) (predOf (parseList t)))
+  | ["map", l, k] =>
+    match map 0 (fun x => x * intOr k + 1) (parseList l) with
+    | none => "panic"
+    | some out => showList out
+  | ["reduce", l, init] => toString (reduce 0 (parseList l) (intOr init) (fun acc x => (acc * 3 + x) % 1000003))
+  | ["repeat", x, n] =>
+    match repeatN 0 (intOr x) (intOr n) with
+    | none => "panic"
+    | some out => showList out
+  | ["clone", l, cap] => let s := mkSl (parseList l) (intOr cap); showSl s (clone s)
+  | ["compact", l, cap] => let s := mkSl (parseList l) (intOr cap); showSl s (compact 0 s)
+  | ["compactinplace", l, cap] => let s := mkSl (parseList l) (intOr cap); showSl s (compactInPlace 0 s)
+  | ["compactfunc", l, cap, t] => let s := mkSl (parseList l) (intOr cap); showSl s (compactFunc 0 s (eqOf (parseList t)))
+  | ["compactinplacefunc", l, cap, t] =>
+    let s := mkSl (parseList l) (intOr cap); showSl s (compactInPlaceFunc 0 s (eqOf (parseList t)))
+  | ["equal", a, b] => b2s (equal (Sl.ofList (parseList a)) (Sl.ofList (parseList b)))
+  | ["equalfunc", a, b, t] => b2s (equalFunc (Sl.ofList (parseList a)) (Sl.ofList (parseList b)) (eqOf (parseList t)))
+  | ["filter", l, cap, t] => let s := mkSl (parseList l) (intOr cap); showSl s (filter 0 s (predOf (parseList t)))
+  | ["filterinplace", l, cap, t] => let s := mkSl (parseList l) (intOr cap); showSl s (filterInPlace 0 s (predOf (parseList t)))
+  | ["grow", l, cap, n] =>
+    let s := mkSl (parseList l) (intOr cap)
+    match grow 0 s (intOr n) with
+    | none => "panic"
+    | some r => s!"ret={showList r.items} fresh={b2s r.fresh} cap={if r.fresh then s!"ge{r.cap}" else toString r.cap}"
+  | ["index", l, x] => toString (index (Sl.ofList (parseList l)) (intOr x))
+  | ["indexfunc", l, t] => toString (indexFunc (Sl.ofList (parseList l)) (predOf (parseList t)))
+  | ["insert", l, cap, idx, vals] => let s := mkSl (parseList l) (intOr cap); showOSl s (insertAt s (intOr idx) (parseList vals))
+  | ["remove", l, cap, idx, n] => let s := mkSl (parseList l) (intOr cap); showOSl s (remove 0 s (intOr idx) (intOr n))
+  | ["greater", a, b] => b2s (Juniper.Gen.Helpers.greater (a == "1") (b == "1"))
+  | ["lessorequal", a, b] => b2s (Juniper.Gen.Helpers.lessOrEqual (a == "1") (b == "1"))
+  | ["greaterorequal", a, b] => b2s (Juniper.Gen.Helpers.greaterOrEqual (a == "1") (b == "1"))
+  | ["sortequal", a, b] => b2s (Juniper.Gen.Helpers.sortEqual (a == "1") (b == "1"))
+  | ["sortreverse", c, rev, a, b] => b2s (reverseOf (lessOf (intOr c) (intOr rev)) (intOr a) (intOr b))
+  | ["orderedless", a, b] => b2s (orderedLess (intOr a) (intOr b))
+  | ["sortslice", c, rev, l] =>
+    let r := sortSlice 0 (Sl.ofList (parseList l)) (lessOf (intOr c) (intOr rev))
+    s!"keys={showList (r.items.map (keyOf (intOr c)))} sorted={showList (sortInts r.items)}"
+  | ["slicestable", c, rev, l] => showList (sortSliceStable 0 (Sl.ofList (parseList l)) (lessOf (intOr c) (intOr rev))).items
+  | ["sliceissorted", c, rev, l] => b2s (sortSliceIsSorted 0 (Sl.ofList (parseList l)) (lessOf (intOr c) (intOr rev)))
+  | ["setadd", l, x] => showList (sortInts (setAdd (parseList l) (intOr x)))
+  | ["setremove", l, x] => showList (sortInts (setRemove (parseList l) (intOr x)))
+  | ["setcontains", l, x] => b2s (setContains (parseList l) (intOr x))
+  | ["setfromslice", l] => showList (sortInts (setFromSlice (parseList l)))
+  | ["min", a, b] => toString (xmin (intOr a) (intOr b))
+  | ["max", a, b] => toString (xmax (intOr a) (intOr b))
+  | _ => "bad-op"
 
 def run1 : List String → String
   | ["chunk", len, size] =>
@@ -200,7 +289,7 @@ def run1 : List String → String
     match applySwaps (parsePairs swaps) (parseList l) with
     | none => "panic"
     | some a => showList a
-  | _ => "bad-op"
+  | toks => runMore toks
 
 def handler : Handler := { σ := Unit, init := (), step := fun s toks => (s, run1 toks) }
 
